@@ -24,6 +24,20 @@ def find_fn(mod, sub):
     if len(c) != 1: raise Exception('cannot resolve %s: %s' % (sub, c[:4]))
     return c[0]
 
+def bm_layout(mod):
+    """where the current tree keeps the last-writer table and the register-file pointer of BytecodeMachine (read from the IR types)"""
+    from engine.irsym import ArrT, IntT, PtrT, StructT
+    t = resolve(NamedT('class.randomx::BytecodeMachine', mod)); offs = t.layout()[0]; usage = None; nreg = None
+    for o, e in zip(offs, t.els):
+        r = resolve(e)
+        if isinstance(r, ArrT) and r.n == 8 and isinstance(resolve(r.el), IntT) and resolve(r.el).w == 32 and usage is None: usage = ('bm', o)
+        if isinstance(r, PtrT) and nreg is None and isinstance(r.to, NamedT) and 'NativeRegisterFile' in r.to.name: nreg = o
+    if usage is None:
+        g = [n for n in mod.globals if 'registerUsage' in n and 'BytecodeMachine' in n]
+        if len(g) == 1: usage = (g[0], 0)
+    if usage is None or nreg is None: raise Exception('BytecodeMachine layout not recognised')
+    return dict(size=t.size(), usage=usage, nreg=nreg)
+
 class VMState:
     """symbolic pre-state shared by implementation and spec"""
     def __init__(s, tag=''):
@@ -43,9 +57,13 @@ def place_state(it, S, mod):
     for g, base in ((S.f, 64), (S.e, 128), (S.a, 192)):
         for k in range(4):
             for l in range(2): it.mem.store(Ptr('nreg', base + 16 * k + 8 * l), g[k][l], 8)
-    bm = it.mem.alloc(40, 'bm')
-    for k in range(8): it.mem.store(Ptr('bm', 4 * k), S.usage[k], 4)
-    it.mem.store(Ptr('bm', 32), nreg, 8)
+    lay = bm_layout(mod)
+    bm = it.mem.alloc(lay['size'], 'bm')
+    for k in range(0, lay['size'] - lay['size'] % 8, 8): it.mem.store(Ptr('bm', k), z3.BitVec('bm_other%d' % k, 64), 8)     # members this harness does not know: arbitrary
+    ub = lay['usage']
+    for k in range(8): it.mem.store(Ptr(ub[0], ub[1] + 4 * k) if ub[0] == 'bm' else Ptr(it.glob(ub[0]).obj, 4 * k), S.usage[k], 4)
+    it.mem.store(Ptr('bm', lay['nreg']), nreg, 8)
+    it.usage_base = ('bm', ub[1]) if ub[0] == 'bm' else (it.glob(ub[0]).obj, 0)
     cfg = it.mem.alloc(32, 'cfg')
     for l in range(2): it.mem.store(Ptr('cfg', 8 * l), V.emask_of(S.q[l]), 8)
     for l in range(4): it.mem.store(Ptr('cfg', 16 + 4 * l), z3.BitVec('readReg%d' % l, 32), 4)
@@ -58,7 +76,8 @@ def read_state(it):
     f = [[it.mem.load(Ptr('nreg', 64 + 16 * k + 8 * l), 8) for l in range(2)] for k in range(4)]
     e = [[it.mem.load(Ptr('nreg', 128 + 16 * k + 8 * l), 8) for l in range(2)] for k in range(4)]
     a = [[it.mem.load(Ptr('nreg', 192 + 16 * k + 8 * l), 8) for l in range(2)] for k in range(4)]
-    usage = [it.mem.load(Ptr('bm', 4 * k), 4) for k in range(8)]
+    ub = getattr(it, 'usage_base', ('bm', 0))
+    usage = [it.mem.load(Ptr(ub[0], ub[1] + 4 * k), 4) for k in range(8)]
     return r, f, e, a, usage
 
 def bind_common(it):
@@ -199,7 +218,7 @@ def run_I6(ctx, case):
     allowed = case['ops']
     def one(fk):
         it = Interp(mod); it.fork = fk; bind_common(it); nreg, bm, cfg, sp = place_state(it, S, mod)
-        for k in range(8): it.mem.store(Ptr('bm', 4 * k), 0xffffffff, 4)       # beginCompilation
+        for k in range(8): it.mem.store(Ptr(it.usage_base[0], it.usage_base[1] + 4 * k), 0xffffffff, 4)       # beginCompilation
         fk['pc'] += [w['opcode'] == o for w, o in zip(words, allowed)]
         bc = it.mem.alloc(32 * N, 'bytecode')
         for k in range(0, 32 * N, 8): it.mem.store(Ptr('bytecode', k), z3.BitVec('bc_stale%d' % k, 64), 8)
